@@ -787,6 +787,13 @@ static PyObject* Memory_set_words(MemoryObject* self, PyObject* args)
             return NULL;
         }
         if (self->flat) {
+            /* fetching an item runs python code, which may have run this memory (building the flat
+               array) since the span check above - so the span is checked for every word. */
+            if (start_word + (uint64_t)i >= self->flat_count) {
+                Py_DECREF(values);
+                PyErr_SetString(PyExc_ValueError, "set_words address is beyond the flat-storage span");
+                return NULL;
+            }
             self->flat[start_word + i] = value & self->word_mask;
             continue;
         }
